@@ -240,6 +240,128 @@ CHECKS["C09"] = (
     "DESIGN.md §6 C09",
 )
 
+
+CHECKS["C04"] = (
+    "Lean 4 theorems over the exception funnel (render_string, _lex_templated_file, _parse_tokens with the node pre-check, BaseRule.crawl): a result "
+    "is returned for every environment in which each engine raises only its own error class, reported as TMP/LXR/PRS; node and depth limits give PRS "
+    "for every size; anything else escapes (witness). The funnel model is corresponded with the real Linter with every engine stubbed to return or "
+    "raise each class. The hypothesis (engines raise only their own classes) and the end-to-end statement are sampled by stress inputs x dialects x "
+    "templaters x rule selections x limit configurations through Linter, the simple API and the CLI, and on the fixed universe. Partial: engines are "
+    "external to the model. Four crashes found this way were repaired (fix: commits), one is a listed known finding.",
+    "Lean 4 proof of the funnel's decision logic + stub-driven correspondence + stress/differential runs",
+    "Lean kernel; standard axioms; templater/lexer/parser/rule behaviour on an input is a parameter (contract StagesRaiseOwnErrors, sampled)",
+    "DESIGN.md §6 C04",
+)
+CHECKS["C05"] = (
+    "Lean 4 theorems: the result contains an 'Unexpected exception' violation iff some rule's _eval raised, and a raising rule never hides the "
+    "others; C05 is thereby reduced to 'no rule raises on any tree', which is sampled: all rules in fix mode over the fixed universe (2249 "
+    "fixtures, a seeded mutant of each, 400 generated statements, 300 jinja templates) and shuffled inputs under two non-default rule-option sets. "
+    "Partial: the rule implementations are not modelled. Three internal errors found on the unchanged tree were repaired (AL05, AM04, CV05).",
+    "Lean 4 proof (reduction) + exhaustive sweep of a fixed input universe + option-variation runs",
+    "Lean kernel; standard axioms; rules are external to the model",
+    "DESIGN.md §6 C05",
+)
+CHECKS["C06"] = (
+    "Lean 4 theorems over a transcription of longest_match: pruning is transparent whenever dropped options would fail (HintSound), the parse cache "
+    "is transparent over every history of calls whenever a key determines the fresh match (KeyDetermines) — by induction with the invariant that every "
+    "entry equals the fresh result — and a kernel-checked witness shows KeyDetermines is necessary. The model is corresponded with the real function on stub "
+    "matchers; both hypotheses are sampled on the real parser by shadow execution (every recomputation under a used key compared; dropped options matched "
+    "anyway); whole-parse trees are compared normal / cache off / pruning off / both off, twice, after other files, and in fresh processes with "
+    "different hash seeds, including systematically generated 'false terminator' statements. Partial: grammar match functions are parameters.",
+    "Lean 4 proof (refinement of the optimised loop to the plain one) + stub correspondence + shadow execution",
+    "Lean kernel; standard axioms; grammar behaviour is a parameter (contracts HintSound, KeyDetermines, sampled)",
+    "DESIGN.md §6 C06",
+)
+CHECKS["C10"] = (
+    "Lean 4 theorems: for raw slices tiling the source, a patch that passes the filter of generate_source_patches (through the two while loops of "
+    "raw_slices_spanning_source_slice) and is not an explicit source fix touches no non-literal slice; hence the file rebuilt from any ordered disjoint "
+    "family of such patches (C30) contains every tag, expression, comment and parameter verbatim and in order. The filter model is corresponded with the real "
+    "function on real templated files with synthetic patch streams; the tiling hypothesis is checked on every templated file; the end-to-end statement is "
+    "evaluated on real fix runs (jinja inline/block/glued empty expressions, python, placeholder styles; universe jinja slice). Partial: which patches "
+    "the tree yields is not modelled. Clean-tree failures are listed by input.",
+    "Lean 4 proof (loop transcription + splice lemma) + differential correspondence + end-to-end spec on real runs",
+    "Lean kernel; standard axioms; _iter_templated_patches external; JJ01 source fixes exempt as the property says",
+    "DESIGN.md §6 C10",
+)
+CHECKS["C11"] = (
+    "Lean 4 theorems on top of C30: every source range that no applied patch touches is present verbatim (and in order) in fixString, for every "
+    "source and every family of patch buffers; no patches = identity. Patch buffers of real fixes go through the Lean fixString and are compared with "
+    "the file written. Byte level (outside the model): files assembled from clean lines and known-fix lines x six encodings, BOMs, LF/CRLF/CR, "
+    "undecodable bytes — the CLI must leave clean lines byte-identical, not rewrite a clean file (inode, mtime), and agree with the API. The "
+    "backslashreplace handling of undecodable bytes is a listed known finding.",
+    "Lean 4 proof (splice lemma) + captured-patch correspondence + independent byte-level oracle",
+    "Lean kernel; standard axioms; codecs and newline handling outside the model",
+    "DESIGN.md §6 C11",
+)
+CHECKS["C12"] = (
+    "Lean 4 theorems over the lexer model of C01: every token list the lexer produces is stable under re-lexing (for all matcher families and inputs), so "
+    "instability can only be introduced by an edit; witnesses show gluing and splitting in a mini dialect. The Lean spec (same boundaries and kinds, tree "
+    "text = written text) is evaluated on the real fixed tree vs the re-lexed output over the fixed universe x nine rule sets. Partial: the fix engine has "
+    "no re-lex check, so the property is decided by the sweep; clean-tree failures are listed by input.",
+    "Lean 4 proof (lexer fixed point) + Lean-evaluated spec on real fix runs over a fixed universe",
+    "Lean kernel; standard axioms; rules/reflow external to the model",
+    "DESIGN.md §6 C12",
+)
+CHECKS["C13"] = (
+    "Lean 4 theorems over a transcription of the lint_fix_parsed loop (phases, proposals, conflict and validity gates, loop limit, previous-versions set): the "
+    "result is the initial tree or one accepted by apply_fixes' validation; a runaway loop rolls back. The real loop is traced into tables and replayed through "
+    "the Lean loop (same final tree). The validation works on the edited token list, not the re-lexed text, so the end-to-end statement is decided by the sweep: "
+    "clean inputs of the universe x rule sets are fixed and re-parsed. Partial; clean-tree failures listed by input.",
+    "Lean 4 proof (loop invariant) + trace-replay correspondence + end-to-end sweep",
+    "Lean kernel; standard axioms; rules' proposals and apply_fixes are recorded tables (contract RulesAreFunctions)",
+    "DESIGN.md §6 C13",
+)
+CHECKS["C14"] = (
+    "Lean 4 theorems: an edit whose removed and inserted tokens have the same code projection and comments preserves the file's; so does any sequence of "
+    "such edits (induction over the edit list). The Lean spec (code tokens unchanged in text and order, comment multiset preserved) is evaluated on the "
+    "original vs re-lexed fixed tokens over the fixed universe with the layout group and a non-default layout configuration. Partial: that each reflow "
+    "edit is whitespace-only is what the sweep samples; clean-tree failures listed by input.",
+    "Lean 4 proof (edit algebra) + Lean-evaluated spec on real fix runs over a fixed universe",
+    "Lean kernel; standard axioms; reflow external to the model",
+    "DESIGN.md §6 C14",
+)
+CHECKS["C15"] = (
+    "Lean 4 theorems: the case-only relation is pointwise, leaves non-code and quoted tokens unchanged and is transitive (composes over successive fixes). "
+    "The Lean spec is evaluated on original vs re-lexed fixed tokens over the fixed universe with the capitalisation group under the default and five explicit "
+    "policies. Clean-tree failures (case changed inside quoted identifiers/strings in some dialects; the snake policy inserting underscores) are listed.",
+    "Lean 4 proof (relation algebra) + Lean-evaluated spec on real fix runs over a fixed universe",
+    "Lean kernel; standard axioms; CP rules external to the model",
+    "DESIGN.md §6 C15",
+)
+CHECKS["C17"] = (
+    "Lean 4 theorems over the fix-loop model: if the loop ends because no rule proposes anything (quiescent) a second run changes nothing; kernel-checked "
+    "witnesses show the two ways idempotence fails (loop limit reached while rules oscillate; main-phase rules re-triggered by post-phase edits). The real "
+    "loop is traced and replayed through the model; the end-to-end statement (fix twice = fix once) is evaluated over the fixed universe x all/layout/"
+    "alternative layout, including jinja templates. Partial; clean-tree failures listed by input.",
+    "Lean 4 proof (loop model) + trace-replay correspondence + end-to-end sweep",
+    "Lean kernel; standard axioms; rules' proposals are recorded tables",
+    "DESIGN.md §6 C17",
+)
+
+
+CHECKS["C16"] = (
+    "Lean 4 theorems over a three-valued-logic evaluator of scalar SQL (NULL/integers, SQLite truthiness, right-nested CASE): the rewrites of ST01, ST02 (four "
+    "forms), ST04, CV01, CV02 and ST09 evaluate identically for every row and all sub-expressions; CV05's rewrite does not (witness), which is why the property "
+    "excludes it. The evaluator is corresponded with SQLite on generated expressions x rows; each modelled rule is checked to emit the form the theorem is "
+    "about; the statement itself is sampled by differential execution in SQLite of generated queries (joins, grouping, CTEs, set operations, subqueries, "
+    "fixable anti-patterns) before and after fixing with all rules except ST06/CV05. Partial: statement-level semantics are not modelled. A failure is "
+    "attributed to the single rule that reproduces it; RF03's qualification of GROUP BY ordinals is a listed known finding.",
+    "Lean 4 proof (expression equivalences under 3VL) + evaluator correspondence with SQLite + differential execution",
+    "Lean kernel; standard axioms; SQLite is the oracle for query results; rule implementations external (contract RewriteShape)",
+    "DESIGN.md §6 C16",
+)
+CHECKS["C32"] = (
+    "Lean 4 theorems over the process-wide mutable state: the mutation allowed_rule_ref_map performs on the shared reference map is idempotent, so its result is "
+    "the same after any number of earlier calls; ids from the class-level BlockTracker map are equal exactly when the source slices are, from every reachable "
+    "state (invariant: injective map below the fresh-id supply). Both models are corresponded with the real functions. The statement is sampled on histories: "
+    "generated project directories, random sequences of lint/parse/render through CLI and API, every file snapshotted (bytes, mtime, inode, mode, listing), "
+    "targets re-linted in-process with the same and new Linters and in fresh processes with random hash seeds. Partial: other caches are covered by the "
+    "histories only.",
+    "Lean 4 proof (idempotence; injectivity invariant) + differential correspondence + history runs with snapshots",
+    "Lean kernel; standard axioms; file system and other module-level caches observed, not modelled",
+    "DESIGN.md §6 C32",
+)
+
 NOT_YET = {}
 
 
